@@ -21,8 +21,11 @@ Record t := mk { q : CidQueue.t; pending : Z; retired_hits : Z }.
 Inductive outcome := Continue (s : t) | Close (code : Z) | Panic.
 
 (** [cids_in_use]: [!self.rem_cids.active().is_empty()]; [is_server]: [self.side.is_server()] *)
-Definition new_connection_id (L : Z) (cids_in_use is_server : bool) (s : t) (seq rpt id : Z)
-  : outcome :=
+(** [fixed = false]: the arm as found (the Retired path pushes unconditionally);
+    [fixed = true]: the arm after the repair (the Retired path applies the same
+    [MAX_PENDING_RETIRED_CIDS] limit as the retiring path). *)
+Definition new_connection_id (fixed : bool) (L : Z) (cids_in_use is_server : bool) (s : t)
+           (seq rpt id : Z) : outcome :=
   if negb cids_in_use then Close PROTOCOL_VIOLATION
   else if seq <? rpt then Close PROTOCOL_VIOLATION
   else
@@ -30,8 +33,10 @@ Definition new_connection_id (L : Z) (cids_in_use is_server : bool) (s : t) (seq
     | None => Panic
     | Some (_, CidQueue.ErrExceedsLimit) => Close CONNECTION_ID_LIMIT_ERROR
     | Some (_, CidQueue.ErrRetired) =>
-        (* [retire_cids.push(frame.sequence); continue] — no bound is applied on this path *)
-        Continue (mk (q s) (pending s + 1) (retired_hits s + 1))
+        (* [retire_cids.push(frame.sequence); continue] — before the repair no bound is applied
+           on this path *)
+        if fixed && (max_pending L <=? pending s) then Close CONNECTION_ID_LIMIT_ERROR
+        else Continue (mk (q s) (pending s + 1) (retired_hits s + 1))
     | Some (q', r) =>
         let after_insert :=
           match r with
@@ -60,15 +65,16 @@ Definition drain (s : t) (k : Z) : t :=
 
 Inductive op := Frame (seq rpt id : Z) | Drain (k : Z).
 
-Fixpoint run (L : Z) (cids_in_use is_server : bool) (s : t) (os : list op) : outcome :=
+Fixpoint run (fixed : bool) (L : Z) (cids_in_use is_server : bool) (s : t) (os : list op)
+  : outcome :=
   match os with
   | [] => Continue s
   | Frame seq rpt id :: r =>
-      match new_connection_id L cids_in_use is_server s seq rpt id with
-      | Continue s' => run L cids_in_use is_server s' r
+      match new_connection_id fixed L cids_in_use is_server s seq rpt id with
+      | Continue s' => run fixed L cids_in_use is_server s' r
       | o => o
       end
-  | Drain k :: r => run L cids_in_use is_server (drain s k) r
+  | Drain k :: r => run fixed L cids_in_use is_server (drain s k) r
   end.
 
 Definition init (L : Z) (id : Z) : t := mk (CidQueue.new L id) 0 0.
